@@ -320,6 +320,13 @@ class QvmCode(BaseCode):
             ):
                 arg, = prev1.args
 
+                # the value that is converted at run time is the
+                # pushed value as the assembler stores it (a SINGLE
+                # literal is rounded to 32 bits)
+                src_type = expr.Type.from_type_char(cur.src_type_char)
+                if src_type.is_numeric and src_type.can_hold(arg):
+                    arg = src_type.coerce(arg)
+
                 # Convert the argument to the dest type
                 cur_type = expr.Type.from_type_char(cur.type_char)
                 if cur_type.is_integral and \
